@@ -29,6 +29,7 @@ class Result:
         self.calls = set()            # names of functions called on feasible paths (transitively)
         self.slot_assign = {}         # (rec, field) -> set(target names) assigned on feasible paths
         self.field_writes = set()     # (rec, field) written
+        self.root_writes = set()      # (rec, field, root variable name) written
         self.returns = set()          # ints or None (unknown)
         self.ret_sites = []           # (fn name, line, value)
         self.reached = set()          # (fn name, block id)
@@ -39,6 +40,7 @@ class Result:
         for k, v in o.slot_assign.items():
             self.slot_assign.setdefault(k, set()).update(v)
         self.field_writes |= o.field_writes
+        self.root_writes |= o.root_writes
         self.reached |= o.reached
         self.truncated |= o.truncated
 
@@ -298,6 +300,13 @@ class PEval:
             if k in ('BinaryOperator', 'CompoundAssignOperator') and n['op'] in ASSIGN_OPS:
                 lhs = f.unwrap(N[n['kids'][0]])
                 ls = f.s(lhs)
+                wl = lhs
+                while wl['k'] == 'ArraySubscriptExpr':
+                    wl = f.unwrap(N[wl['kids'][0]])
+                if wl['k'] == 'MemberExpr':
+                    from .effects import lvalue_root
+                    rt = lvalue_root(f, wl)
+                    res.root_writes.add((wl.get('rec'), wl['n'], rt.get('n', '?')))
                 if lhs['k'] == 'MemberExpr':
                     res.field_writes.add((lhs.get('rec'), lhs['n']))
                     if '(*)' in lhs['t']:
